@@ -8,7 +8,7 @@
     with independent j are enough: the first-index sum for any J equals the one for a translate of J
     whose first atom is independent; and that a permutation-symmetric tensor whose first-index sums
     vanish has vanishing sums over every index position. *)
-From Coq Require Import List Arith Lia Bool Reals Permutation NArith PArith ZArith FMapPositive.
+From Coq Require Import List Arith Lia Bool Reals Lra Psatz Permutation NArith PArith ZArith FMapPositive.
 Import ListNotations.
 From SymfcV Require Import Tuples Group Concrete Cutoff SolverModel.
 Local Open Scope nat_scope.
@@ -192,3 +192,161 @@ Definition sumrule_rows (n N : nat) (tp : table) (nr : option near) : list (list
           then [Z.of_N (Pos.pred_N (elem_tab N tp (join a carts)))] else []) (seq 0 N))
         (all_lists n [0; 1; 2])
     else []) (all_lists (n - 1) (seq 0 N)).
+
+Lemma filter_len_le {A} (f : A -> bool) l : length (filter f l) <= length l.
+Proof. induction l as [|x l IH]; simpl; [lia|]. destruct (f x); simpl; lia. Qed.
+
+(** ** The sum-rule matrix lies between 0 and I.
+    Rows (J, c) with translationally independent first atom of J have pairwise disjoint supports and at most N
+    unit entries each, so  |A x|^2 <= N |x|^2 : the matrix I - A^T A / N is positive semidefinite and bounded
+    by the identity (its eigenvalues are in [0,1]; the eigen-solver's window check cannot fire and the
+    hypothesis 0 <= M <= I of the C15 theorems holds for it). *)
+Section Spectrum.
+  Variable N : nat.
+  Variable tp : table.
+  Hypothesis Hv : valid_tp N tp = true.
+  Let nlp := length tp.
+  Variable n : nat.
+  Hypothesis Hn : 0 < n.
+
+  Definition srow (keep : nat -> bool) (J carts : list nat) : list positive :=
+    map (fun i => elem_tab N tp (join (i :: J) carts)) (filter keep (seq 0 N)).
+
+  Lemma join_wf J carts i : i < N -> in_range N J -> length J + 1 = n -> length carts = n -> Forall (fun c => c < 3) carts ->
+    wf_t N n (join (i :: J) carts).
+  Proof.
+    intros Hi HJ HlJ Hlc Hc. split.
+    - unfold join. rewrite map_length, combine_length. cbn [length]. rewrite Hlc. apply Nat.min_r. lia.
+    - unfold join. apply Forall_forall. intros p Hp. apply in_map_iff in Hp. destruct Hp as [[a c] [<- Hac]].
+      pose proof (in_combine_l _ _ _ _ Hac) as Ha. pose proof (in_combine_r _ _ _ _ Hac) as Hcc.
+      assert (a < N) by (destruct Ha as [<-|Ha]; [lia | unfold in_range in HJ; rewrite Forall_forall in HJ; auto]).
+      rewrite Forall_forall in Hc. specialize (Hc c Hcc). simpl. lia.
+  Qed.
+
+  Lemma atoms_join atoms carts : length atoms = length carts -> Forall (fun c => c < 3) carts -> atoms_of (join atoms carts) = atoms.
+  Proof.
+    revert carts. induction atoms as [|a atoms IH]; intros carts Hl Hc; destruct carts as [|c carts]; try discriminate; [reflexivity|].
+    inversion Hc; subst. unfold join, atoms_of in *. cbn [combine map fst snd]. f_equal.
+    - rewrite (Nat.mul_comm 3 a), Nat.div_add_l by lia. rewrite Nat.div_small by assumption. lia.
+    - apply IH; [simpl in Hl; lia | assumption].
+  Qed.
+
+  Lemma carts_join atoms carts : length atoms = length carts -> Forall (fun c => c < 3) carts -> carts_of (join atoms carts) = carts.
+  Proof.
+    revert carts. induction atoms as [|a atoms IH]; intros carts Hl Hc; destruct carts as [|c carts]; try discriminate; [reflexivity|].
+    inversion Hc; subst. unfold join, carts_of in *. cbn [combine map fst snd]. f_equal.
+    - rewrite Nat.add_comm, (Nat.mul_comm 3 a), Nat.mod_add by lia. apply Nat.mod_small. assumption.
+    - apply IH; [simpl in Hl; lia | assumption].
+  Qed.
+
+  (** equal elements of two (i :: J) tuples whose J start on independent atoms: same i, J and carts *)
+  Lemma elem_join_inj i J carts i' J' carts' :
+    i < N -> i' < N -> in_range N J -> in_range N J' -> length J + 1 = n -> length J' + 1 = n ->
+    length carts = n -> length carts' = n -> Forall (fun c => c < 3) carts -> Forall (fun c => c < 3) carts' ->
+    J <> [] -> In (hd 0 J) (indep_t N tp) -> In (hd 0 J') (indep_t N tp) ->
+    elem_tab N tp (join (i :: J) carts) = elem_tab N tp (join (i' :: J') carts') -> i = i' /\ J = J' /\ carts = carts'.
+  Proof.
+    intros Hi Hi' HJ HJ' HlJ HlJ' Hlc Hlc' Hc Hc' HneJ Hind Hind' E.
+    pose proof (join_wf J carts i Hi HJ HlJ Hlc Hc) as Hw. pose proof (join_wf J' carts' i' Hi' HJ' HlJ' Hlc' Hc') as Hw'.
+    destruct (elem_tab_complete N tp Hv n _ _ Hn Hw Hw' E) as [tau [Htau Et]].
+    assert (Ea : shift (act tp) tau (i :: J) = i' :: J').
+    { rewrite <- (atoms_join (i :: J) carts) at 1 by (cbn [length]; lia || assumption).
+      rewrite <- atoms_tshift. rewrite Et. apply atoms_join; [cbn [length]; lia | assumption]. }
+    assert (Ec : carts = carts').
+    { rewrite <- (carts_join (i :: J) carts) by (cbn [length]; lia || assumption).
+      rewrite <- (carts_tshift tp tau). rewrite Et. apply carts_join; [cbn [length]; lia | assumption]. }
+    unfold shift in Ea. cbn [map] in Ea. injection Ea as Ei EJ.
+    destruct J as [|j J0]; [congruence|]. destruct J' as [|j' J0']; [discriminate|].
+    cbn [map] in EJ. injection EJ as Ej EJ0. cbn [hd] in Hind, Hind'.
+    assert (Hj : j < N) by (inversion HJ; assumption).
+    assert (Ejj : j = j') by (apply (indep_unique_t N tp Hv j j' tau Hj Hind Hind' Htau Ej)).
+    assert (Etau : tau = 0).
+    { apply (v_free N tp Hv tau 0 j Htau (v_nlp_pos N tp Hv) Hj). rewrite Ej, <- Ejj. symmetry. apply (v_act_id N tp Hv). exact Hj. }
+    rewrite Etau in *. split; [rewrite <- Ei; symmetry; apply (v_act_id N tp Hv); exact Hi|]. split; [|exact Ec].
+    rewrite <- Ejj. f_equal. rewrite <- EJ0. rewrite <- (map_id J0) at 1. apply map_ext_in. intros x Hx. symmetry. apply (v_act_id N tp Hv).
+    inversion HJ as [|? ? _ HJ0]; subst. rewrite Forall_forall in HJ0. apply HJ0. exact Hx.
+  Qed.
+
+  (** D1: a row has no repeated element (so at most N unit entries) *)
+  Theorem srow_nodup keep J carts :
+    in_range N J -> length J + 1 = n -> length carts = n -> Forall (fun c => c < 3) carts -> J <> [] -> In (hd 0 J) (indep_t N tp) ->
+    NoDup (srow keep J carts) /\ length (srow keep J carts) <= N.
+  Proof.
+    intros HJ HlJ Hlc Hc Hne Hind. split.
+    - unfold srow. apply map_nodup_in.
+      + intros a b Ha Hb E. apply filter_In in Ha, Hb. destruct Ha as [Ha _], Hb as [Hb _]. apply in_seq in Ha, Hb.
+        destruct (elem_join_inj a J carts b J carts ltac:(lia) ltac:(lia) HJ HJ HlJ HlJ Hlc Hlc Hc Hc Hne Hind Hind E) as [H _]. exact H.
+      + apply NoDup_filter. apply seq_NoDup.
+    - unfold srow. rewrite map_length. pose proof (filter_len_le keep (seq 0 N)) as H. rewrite seq_length in H. exact H.
+  Qed.
+
+  (** D2: two different rows share no element *)
+  Theorem srows_disjoint keep keep' J carts J' carts' e :
+    in_range N J -> in_range N J' -> length J + 1 = n -> length J' + 1 = n -> length carts = n -> length carts' = n ->
+    Forall (fun c => c < 3) carts -> Forall (fun c => c < 3) carts' -> J <> [] ->
+    In (hd 0 J) (indep_t N tp) -> In (hd 0 J') (indep_t N tp) ->
+    In e (srow keep J carts) -> In e (srow keep' J' carts') -> J = J' /\ carts = carts'.
+  Proof.
+    intros HJ HJ' HlJ HlJ' Hlc Hlc' Hc Hc' Hne Hind Hind' He He'.
+    unfold srow in He, He'. apply in_map_iff in He, He'. destruct He as [i [Ei Hi]]. destruct He' as [i' [Ei' Hi']].
+    apply filter_In in Hi, Hi'. destruct Hi as [Hi _], Hi' as [Hi' _]. apply in_seq in Hi, Hi'.
+    destruct (elem_join_inj i J carts i' J' carts' ltac:(lia) ltac:(lia) HJ HJ' HlJ HlJ' Hlc Hlc' Hc Hc' Hne Hind Hind' ltac:(congruence)) as [_ H]. exact H.
+  Qed.
+End Spectrum.
+
+(** analytic part: (sum of k numbers)^2 <= k * (sum of their squares) *)
+Local Open Scope R_scope.
+Lemma rsum_sq_le (l : list R) : (rsum l * rsum l <= INR (length l) * rsum (map (fun a => a * a) l))%R.
+Proof.
+  induction l as [|a l IH]; [simpl; lra|].
+  cbn [rsum map length]. rewrite S_INR.
+  set (S := rsum l) in *. set (T := rsum (map (fun a0 => a0 * a0) l)) in *. set (k := INR (length l)) in *.
+  assert (Hk : (0 <= k)%R) by (unfold k; apply pos_INR).
+  assert (HT : (0 <= T)%R).
+  { unfold T. clear. induction l as [|b l IH]; simpl; [lra|]. pose proof (Rle_0_sqr b) as H. unfold Rsqr in H. lra. }
+  (* 2 a S <= k a^2 + T  follows from  S^2 <= k T  (discriminant) ; treat k = 0 separately *)
+  clearbody S T k.
+  destruct (Req_dec k 0) as [Hk0|Hk0].
+  - rewrite Hk0 in *. assert (S * S <= 0)%R by lra. assert (S = 0)%R by nra. rewrite H0. nra.
+  - assert (Hkp : (0 < k)%R) by lra.
+    assert (H2 : (2 * a * S <= k * (a * a) + T)%R).
+    { (* (k a - S)^2 >= 0  ->  2 a S k <= k^2 a^2 + S^2 <= k^2 a^2 + k T *)
+      pose proof (Rle_0_sqr (k * a - S)) as Hsq. unfold Rsqr in Hsq.
+      assert (2 * a * S * k <= k * k * (a * a) + k * T)%R by nra.
+      apply (Rmult_le_reg_r k); [exact Hkp|]. nra. }
+    nra.
+Qed.
+
+Lemma rsum_sub (f : positive -> R) : (forall e, 0 <= f e) ->
+  forall (l E : list positive), NoDup l -> incl l E -> rsum (map f l) <= rsum (map f E).
+Proof.
+  intros Hf. induction l as [|x l IH]; intros E Hnd Hinc.
+  - simpl. clear Hinc. induction E as [|y E IHE]; simpl; [lra | specialize (Hf y); lra].
+  - inversion Hnd as [|? ? Hx Hl]; subst.
+    assert (Hin : In x E) by (apply Hinc; left; reflexivity).
+    apply in_split in Hin. destruct Hin as [E1 [E2 ->]].
+    assert (Hinc' : incl l (E1 ++ E2)).
+    { intros y Hy. assert (In y (E1 ++ x :: E2)) by (apply Hinc; right; exact Hy).
+      apply in_app_iff in H. apply in_app_iff. destruct H as [H|[H|H]]; [left; exact H | subst; contradiction | right; exact H]. }
+    specialize (IH (E1 ++ E2) Hl Hinc'). simpl. rewrite !map_app, !rsum_app in *. simpl. lra.
+Qed.
+
+(** |A x|^2 <= N |x|^2 for rows that are pairwise disjoint, duplicate-free, of length <= N *)
+Theorem sumrule_quadratic_bound (N : nat) (rows : list (list positive)) (E : list positive) (x : positive -> R) :
+  NoDup (concat rows) -> incl (concat rows) E -> (forall r, In r rows -> (length r <= N)%nat) ->
+  rsum (map (fun r => rsum (map x r) * rsum (map x r)) rows) <= INR N * rsum (map (fun e => x e * x e) E).
+Proof.
+  intros Hnd Hinc Hlen.
+  apply Rle_trans with (INR N * rsum (map (fun e => x e * x e) (concat rows))).
+  - clear Hnd Hinc. induction rows as [|r rows IH]; [simpl; lra|].
+    cbn [map rsum concat]. rewrite map_app, rsum_app.
+    assert (Hr : rsum (map x r) * rsum (map x r) <= INR N * rsum (map (fun e => x e * x e) r)).
+    { pose proof (rsum_sq_le (map x r)) as H. rewrite map_length, map_map in H.
+      assert (Hsq : 0 <= rsum (map (fun e => x e * x e) r)).
+      { clear. induction r as [|e r IH]; simpl; [lra|]. pose proof (Rle_0_sqr (x e)) as H. unfold Rsqr in H. lra. }
+      assert (HN : INR (length r) <= INR N) by (apply le_INR; apply Hlen; left; reflexivity).
+      nra. }
+    specialize (IH (fun r0 H0 => Hlen r0 (or_intror H0))). lra.
+  - apply Rmult_le_compat_l; [apply pos_INR|]. apply rsum_sub; [|exact Hnd | exact Hinc].
+    intro e. pose proof (Rle_0_sqr (x e)) as H. unfold Rsqr in H. exact H.
+Qed.
